@@ -138,6 +138,22 @@ def core_check(pid, props_mod, fail_pids, modes=('walk', 'boundary', 'pairs'), s
         if problems:
             run.breakage('step_sound (Lemmas/Core/Sound.lean) no longer checks', '\n'.join(problems))
         run.trusted += CORE_TRUST
+        # the judge's oracles never fire on the model's own behaviour (no oracle demands more than M1 guarantees)
+        orc = ['mustPanic_sound', 'opOracle_sound', 'opOracle_pack_weaker', 'frameOracle_sound', 'boundsOracle_sound', 'uniqOracle_sound',
+               'stateOracles_step_sound']
+        reso = vlib.lake_build(['BytesVerif.Props.OracleSound'])
+        fullo = ['BytesVerif.Judge.SeqJ.' + t for t in orc]
+        if reso['BytesVerif.Props.OracleSound'][0]:
+            oko, foundo, problemso = vlib.audit_axioms(['BytesVerif.Props.OracleSound'], fullo, pid + '_orc')
+        else:
+            oko, foundo, problemso = False, {}, [t + ': module does not build' for t in fullo]
+        for t in fullo:
+            bad = [p for p in problemso if p.startswith(t + ':')]
+            run.obligation(t, not bad, '; '.join(bad))
+            run.axioms[t] = foundo.get(t)
+        if problemso:
+            run.breakage('oracle-soundness theorems (Props/OracleSound.lean) no longer check: the judge may demand more than the model guarantees',
+                         '\n'.join(problemso[:6]))
         run_seq_streams(run, a, pid, fail_pids, modes)
         if pid == 'C02' and not (a.replay and '\nm ' not in open(a.replay).read()):
             # writes through BufMut targets: guard bytes around every fixed-size destination (mut stream of C11)
@@ -145,6 +161,15 @@ def core_check(pid, props_mod, fail_pids, modes=('walk', 'boundary', 'pairs'), s
             checks_buf.run_mut_stream(run, a, 'C02', vlib.cargo_build('debug'), {'C02'})
             run.trusted.append('BufMut side of C02: guard bytes around every fixed-size destination in the mut stream (M2 write model of C11), '
                                'and the reviewed unsafe-site inventory (Cert/C17)')
+        if pid == 'C04' and not a.replay:
+            # BytesMut regions under Extend / FromIterator driven by iterators with wrong size hints or panics (adv stream of C17)
+            binpath = os.path.join(os.path.dirname(vlib.cargo_build('debug')), 'hseq')
+            out, hrc, jrc, herr = vlib.pipe([binpath, 'adv'], ['adv'])
+            for ln in out:
+                tags, d = vlib.kv(ln)
+                if tags and tags[0] == 'oracle-fail' and 'C04' in (tags[1] if len(tags) > 1 else '').split('+'):
+                    case = d.get('case', '-').replace('~', ' ')
+                    run.fail('adv:' + case.split()[0][:50], ln[:400], f'# hseq adv   (case: {case})\n')
         if pid == 'C02' and run.tier == 'thorough' and not a.replay:
             asan_support(run, a, [['seq'], ['seq', 'boundary'], ['seq', 'pairs']], 'C02')
             miri_support(run, a)
@@ -186,7 +211,9 @@ def c18(run, a):
     ref_thms = {'BytesVerif.Props.C18Refine': ['reserve_refines_strong', 'step_reserve_refines_strong', 'step_reserve_layout'],
                 'BytesVerif.Props.C18RefineOps': ['step_advance_refines', 'step_truncate_refines', 'step_extend_refines', 'step_splitTo_refines',
                                                   'step_split_refines', 'step_dropPart_refines', 'step_splitOffTail_refines',
-                                                  'step_unsplitLast_refines', 'step_refines', 'run_refines', 'alloc_size_bounded_M1']}
+                                                  'step_unsplitLast_refines', 'step_unsplit_copy_refines', 'step_intoMut_refines',
+                                                  'step_tryIntoMut_refines', 'step_roundTrip_refines', 'step_reserve_shared_refinesP',
+                                                  'step_dropPinned_refinesP', 'step_refines', 'run_refines', 'alloc_size_bounded_M1']}
     resr = vlib.lake_build(list(ref_thms))
     for mod, ts in ref_thms.items():
         ns = 'BytesVerif.Core.C18Refine.'
